@@ -22,7 +22,7 @@ CFG = {
                      "theories/Gen/Sphere.v", "theories/Gen/Hemisphere.v", "theories/Gen/Cylinder.v",
                      "theories/Gen/Cube.v", "theories/Gen/CylinderProofs.v", "theories/Gen/SphereProofs.v",
                      "theories/Gen/CubeProofs.v", "theories/Gen/CylinderGeom.v", "theories/Gen/SphereGeom.v", "theories/Gen/CylinderVolume.v", "theories/Gen/CylinderMono.v",
-                     "theories/Gen/SphereVolume.v", "theories/Gen/HemiVolume.v", "theories/Gen/CubeClasses.v", "theories/Gen/VolumeLimits.v", "theories/Gen/CubeTableProofs.v", "theories/Gen/Solids.v", "theories/Gen/SphereDistinct.v", "theories/Gen/CylinderClasses.v", "theories/Gen/GenProofs.v"],
+                     "theories/Gen/SphereVolume.v", "theories/Gen/HemiVolume.v", "theories/Gen/CubeClasses.v", "theories/Gen/VolumeLimits.v", "theories/Gen/CubeTableProofs.v", "theories/Gen/Solids.v", "theories/Gen/SphereDistinct.v", "theories/Gen/CylinderClasses.v", "theories/Gen/HemiDistinct.v", "theories/Gen/GenProofs.v"],
     "level_text": "Coq theorems about Gallina copies of the index-generating loops of the solid primitives (UV sphere "
                   "welded/unwelded, hemisphere, capped cylinder, welded box table, six-quad box) and their vertex "
                   "coincidence classes: well-formed indices and closed + consistently oriented surface "
